@@ -229,6 +229,9 @@ pub fn sort_base(id: u64) -> Option<i64> {
 }
 
 pub struct Harness {
+    /// the directory the index was created in: a re-opened writer works on an `Index` opened from it again
+    /// (settings and schema then come from meta.json, not from the object that created the index)
+    pub raw_dir: Box<dyn Directory>,
     pub index: Index,
     pub fields: Fields,
     pub writer: Option<IndexWriter>,
@@ -260,9 +263,10 @@ impl Harness {
             docstore_compress_dedicated_thread: false,
             ..IndexSettings::default()
         };
+        let raw_dir = dir.box_clone();
         let index = Index::create(dir, schema, settings)?;
         let writer = new_writer(&index, cfg)?;
-        Ok(Harness { index, fields, writer: Some(writer), cfg: cfg.clone(), txn_opstamps: vec![], last_commit_opstamp: None, delete_all_pending: false, groups_expected: SEGMENTS_ADDED.load(std::sync::atomic::Ordering::SeqCst), eager_on: false })
+        Ok(Harness { raw_dir, index, fields, writer: Some(writer), cfg: cfg.clone(), txn_opstamps: vec![], last_commit_opstamp: None, delete_all_pending: false, groups_expected: SEGMENTS_ADDED.load(std::sync::atomic::Ordering::SeqCst), eager_on: false })
     }
 
     /// switch the merge-everything policy on (it applies at the next merge trigger, and to writers opened later)
@@ -274,6 +278,7 @@ impl Harness {
     }
 
     fn reopen_writer(&mut self) -> tantivy::Result<()> {
+        self.index = Index::open(self.raw_dir.box_clone())?;
         let w = new_writer(&self.index, &self.cfg)?;
         if self.eager_on {
             w.set_merge_policy(Box::new(EagerMergePolicy));
